@@ -125,6 +125,9 @@ def main(tier):
                                                               "cpuouts", "cpuouts", "memcpy"])
     if corpus.ops_families():     # operator-coverage families (memory-only operators, mixed precision, fused activations, fall-backs)
         jobs += corpus.draw(10 if tier == "quick" else 200, sd + 3, families=corpus.ops_families())
+    # graph shapes (corpus_shapes.py); emphasis: tensors read inside and outside their NPU subgraph, tensors that are graph
+    # input and output at once, several NPU subgraphs with outputs produced at different times
+    jobs += corpus.shape_jobs(sd, tier, extra=["skip_out"] * 3 + ["io_alias"] * 3 + ["islands"], thorough=25)
     import random
     rng = random.Random(sd)
     for j in jobs:       # alignment is this property's own dimension: sweep it on every job
